@@ -229,6 +229,11 @@ def specs(ctx):
         rng.shuffle(combos)
         combos = combos[:26]
     fmts = ["df", "df", "fits", "hdf5", "parquet"]
+    if not ctx.quick():
+        # thorough: lengths 1..40 x chunk sizes 1..12 (a seeded sample of the full grid on top of the boundary set)
+        grid = [(n, cs) for n in range(1, 41) for cs in range(1, 13)]
+        rng.shuffle(grid)
+        combos = combos + grid[:360]
     for (n, cs) in combos:
         for rep in range(ctx.n(1, 3)):
             workers = rng.choice([0, 2, 3, 4])
@@ -278,14 +283,26 @@ def run(ctx):
             ctx.fail("c02-partition", "per-patch record sets differ from the assignment (code %d)" % c, replay, case=idx)
         if c & 1 or c & 8:
             ctx.disagree("Cases_C02", idx, dict(code=c, replay=replay))
-    # degrees -> radian, exact to rounding (relative 2^-51) against a 30-digit rational pi
+    # degrees -> radian, exact to rounding: the rational test c02_deg2rad_case (Model/Deg2Rad.v) against the proven
+    # enclosure pi_lo < PI < pi_hi; Proofs/Deg2RadP.v:deg2rad_case_sound turns code 0 into
+    # |stored - x*PI/180| <= (2^-51 + 1e-36) * |x|*PI/180 over the reals
     if d2r_all:
-        t = ["code [Qleb (Qabs (%s * 180 - %s * pi_q)) (Qabs %s * pi_eps + 180 * (1 # 2251799813685248) * Qabs %s)]"
-             % (fq.q(s), fq.q(x), fq.q(x), fq.q(s)) for x, s in d2r_all]
-        hdr = HEADER + ("Open Scope Q_scope.\nDefinition pi_q : Q := 3141592653589793238462643383279 # 1000000000000000000000000000000.\n"
-                        "Definition pi_eps : Q := 1 # 100000000000000000000000000000.\n")
+        t = ["c02_deg2rad_case %s %s" % (fq.q(x), fq.q(s)) for x, s in d2r_all]
+        hdr = "From Verif Require Import Prelude Deg2Rad.\nOpen Scope Q_scope.\n"
         codes = ctx.shards("Deg2Rad_C02", hdr, t, shard=400)
         bad = [d2r_all[i] for i, c in enumerate(codes) if c]
         if bad:
             ctx.fail("c02-deg2rad", "stored radian value is not the degree input times pi/180 to rounding: %s" % bad[:3],
                      dict(pairs=bad[:10]))
+        import re as _re
+        from lib import coqrun as _cr
+        path = os.path.join(ctx.workdir, "Deg2RadSound_C02.v")
+        with open(path, "w") as f:
+            f.write("From Verif Require Import Prelude Deg2Rad Deg2RadP.\nCheck deg2rad_case_sound.\nPrint Assumptions deg2rad_case_sound.\n")
+        rc, out = _cr.coqc_file(path, 600)
+        names = sorted(set(_re.findall(r"^([A-Za-z_][\w\.']*)(?:\s*:|\s*$)", out, _re.M)) - {"Axioms", "deg2rad_case_sound"})
+        ok_prefix = ("Uint63.", "PrimInt63.", "ClassicalDedekindReals.", "FunctionalExtensionality.", "Classical_Prop.")
+        unexpected = [n for n in names if not n.startswith(ok_prefix)]
+        ctx.extra["deg2rad_soundness_axioms"] = names
+        ctx.obligation("lemma:deg2rad_case_sound (Proofs/Deg2RadP.v) compiled, axioms as expected", rc == 0 and not unexpected,
+                       "unexpected: %s\n%s" % (unexpected, out[-1500:]))
